@@ -274,6 +274,17 @@ def minimum(ctx, g):
             else:
                 ctx.ob("T4-all-seeds", b.name, "seed-loop", "violation", "seeds tried are not 2..=size(): %s" % (r and (show(r[0], 1), show(r[1], 1), "inclusive" if r[2] else "exclusive"),), b.span_of(bi))
     ctx.require(init_ok, "T4-all-seeds", b.name, "initial-seed", "the initial best code starts at chamber 1", "the initial candidate is not seed 1")
+    # must-pass-through: every iteration of the seed loop reaches the comparison with the running best (no pruning `continue`)
+    cmp_blocks = [bi for bi, t in b.calls(exact="dsyms::compare_codes")]
+    for bi, t in news:
+        lb = loop_blocks_of_payload(b, b.origin(t["args"][1]))
+        if lb is None:
+            continue
+        header, entry = lb
+        ok = len(cmp_blocks) >= 1 and all(must_pass_through(b, entry, c, header) for c in cmp_blocks[:1])
+        ctx.ob("T3-every-seed-compared", b.name, "seed-loop->compare_codes", "ok" if ok else "violation",
+               "every iteration of the seed loop reaches compare_codes(candidate, best)" if ok else
+               "some path through the seed loop skips the comparison with the running best (a seed can be discarded without its code being compared): the minimum is not over all seeds", b.span_of(bi))
     if loop_ok:
         ctx.ob("T4-all-seeds", b.name, "seed-loop", "ok", "remaining seeds are the inclusive range 2..=size()")
     # replacement under compare_codes(trav, best) < 0
